@@ -52,6 +52,11 @@ pub trait Lab<C: Ciphersuite> {
     /// comparison inside the real code must additionally be justified by rule GR (or EX).
     fn expect_reject(&mut self, mark: u64, accepted: bool, what: &str) -> bool;
 
+    /// (GR) `a` and `b` differ except on a hypersurface: symbolically the residual must be affine,
+    /// with provably non-zero slope, in a hash output or honest random draw; concretely a != b
+    fn ne_generic_s(&mut self, a: Scalar<C>, b: Scalar<C>, what: &str) -> bool;
+    fn ne_generic_e(&mut self, a: Element<C>, b: Element<C>, what: &str) -> bool;
+
     /// does the current path condition decide `a == b`? Some(true): entailed equal,
     /// Some(false): entailed different, None: undetermined. Concretely: Some(a == b).
     fn holds_eq_s(&mut self, a: Scalar<C>, b: Scalar<C>) -> Option<bool>;
